@@ -217,7 +217,7 @@ def run_shard_merged(exe, cases, path, result_re, timeout):
     return results, per_case, crash
 
 
-def run_stream_merged(exe, cases, work, tag, result_re, shards=16, timeout=240, max_restarts=6):
+def run_stream_merged(exe, cases, work, tag, result_re, shards=16, timeout=240, max_restarts=400):
     """sharded, restarting after a crash; returns (results list with None for crashed cases,
     list of findings dict(case_index, reports, crashkind))"""
     n = len(cases)
